@@ -491,6 +491,12 @@ def main():
             x["confirmed"] = raised
         elif x["clause"] in r.get("failed", []) or (raised and x["clause"] not in r.get("checked", [])):
             x["confirmed"] = True
+        elif x["clause"].startswith("call[") and ".pre." in x["clause"] and not r.get("crash") and not r.get("failed") and not raised:
+            # a callee contract's call-site precondition could not be established, and the same input run natively (real
+            # callee, no contract) satisfies every clause: the callee contract is not usable on this path - that is an
+            # inability to prove, not a violation of the property
+            x["confirmed"] = None
+            undec.append((x["contract"], x["shape"], "call-site precondition of a callee contract not established (native run of the counter-model is clean): " + x["clause"]))
         elif x["clause"] not in r.get("checked", []) and not r.get("crash"):
             # a structural obligation of the symbolic run (loop cut point, stub call-site precondition, extracted-map
             # lemma) that the native text does not evaluate: the refutation stands, but there is no failing input
